@@ -775,21 +775,22 @@ theorem capPass_congr (ms ms' : List (Str × Str)) (h : ∀ n, ms.lookup n = ms'
 
 /-! ### assembling `build` -/
 
-theorem insertByLen_map {β γ : Type} (f : Str × β → Str × γ) (hf : ∀ p, (f p).1 = p.1) (x : Str × β)
-    (l : List (Str × β)) : insertByLen (f x) (l.map f) = (insertByLen x l).map f := by
+theorem insertBy_map {β γ : Type} (before : Str → Str → Bool) (f : Str × β → Str × γ) (hf : ∀ p, (f p).1 = p.1)
+    (x : Str × β) (l : List (Str × β)) : insertBy before (f x) (l.map f) = (insertBy before x l).map f := by
   induction l with
-  | nil => simp [insertByLen]
+  | nil => simp [insertBy]
   | cons y ys ih =>
-    simp only [List.map_cons, insertByLen, hf]
+    simp only [List.map_cons, insertBy, hf]
     split
-    · simp
     · simp [ih]
+    · simp
 
 theorem sortByLen_map {β γ : Type} (f : Str × β → Str × γ) (hf : ∀ p, (f p).1 = p.1) (l : List (Str × β)) :
     sortByLen (l.map f) = (sortByLen l).map f := by
+  unfold sortByLen
   induction l with
-  | nil => simp [sortByLen]
-  | cons x xs ih => simp only [List.map_cons, sortByLen, ih, insertByLen_map f hf]
+  | nil => simp [sortBy]
+  | cons x xs ih => simp only [List.map_cons, sortBy, ih, insertBy_map lenBefore f hf]
 
 theorem lookup_map_regexVal (ms : List (Str × Str)) (n : Str) :
     (ms.map regexVal).lookup n = (ms.lookup n).map groupRegex := by
